@@ -584,8 +584,21 @@ def match_candidates_sample(
         cost_matrix_np = cost_matrix.numpy()
         cost_matrix_np[np.isnan(cost_matrix_np)] = np.inf
 
-        # Match.
-        match_src_inds, match_dst_inds = linear_sum_assignment(cost_matrix_np)
+        # Match. Candidates without a usable score (infinite cost, e.g. the NaN score of
+        # two peaks at the same location) must not make the assignment infeasible: they
+        # get a finite cost worse than any set of usable candidates and the matches
+        # that had to use one are discarded.
+        is_unusable = np.isinf(cost_matrix_np)
+        usable_costs = cost_matrix_np[~is_unusable].astype("float64")
+        surrogate_cost = 1.0 + 2.0 * min(n_src, n_dst) * np.abs(usable_costs).max(
+            initial=0.0
+        )
+        match_src_inds, match_dst_inds = linear_sum_assignment(
+            np.where(is_unusable, surrogate_cost, cost_matrix_np.astype("float64"))
+        )
+        is_usable_match = ~is_unusable[match_src_inds, match_dst_inds]
+        match_src_inds = match_src_inds[is_usable_match]
+        match_dst_inds = match_dst_inds[is_usable_match]
 
         # Pull out matched scores from the numpy cost matrix.
         match_line_scores_k = -cost_matrix_np[
